@@ -99,6 +99,18 @@ reg(
     "DESIGN.md 5/C03",
 )
 
+reg(
+    "C11",
+    "bounded exhaustive enumeration of all labelings of small training sets x class declarations x cost matrices x weights for every classifier; predict executed under every resolution of its cost ties (tape); reference expected-cost model",
+    "Every classifier variant is fitted on every labeling over {missing,0,1,2} of 4-point pools (3x2 for multi-annotator models), with "
+    "classes undeclared / sorted / unsorted / re-encoded, cost matrices None / 0-1 / asymmetric, weights and partial_fit histories; "
+    "predict_proba is checked for shape, finiteness, simplex and column order, predict_freq for sign, predict (all tie tapes) for "
+    "membership and minimal reference expected cost, and the uniform fall-back without labels.",
+    "Training sets of 4 points / 3 classes; wrapped scikit-learn estimators are trusted (without a cost matrix the wrapper only has to "
+    "hand through the estimator's own decision); row sums to 1e-9 (1e-6 for wrapped estimators).",
+    "DESIGN.md 5/C11",
+)
+
 
 def main():
     props = [json.loads(l) for l in open(os.path.join(HOME, "properties.jsonl"))]
